@@ -259,3 +259,34 @@ pub fn strip_repeated_key_duplicates(doc: &ExecDoc, obs: &Obs) -> (Vec<agv_refgq
     }
     (kept, dups)
 }
+
+/// How many times a field node with response key `key` is reached when every fragment spread is
+/// expanded each time it occurs (> 1 means the key's value is assembled from several executions in
+/// this library, see the C04 finding).
+pub fn key_occurrences(doc: &ExecDoc, key: &str) -> usize {
+    use agv_refgql::ast::Selection;
+    fn occ(doc: &ExecDoc, sel: &[Selection], key: &str, depth: usize) -> usize {
+        if depth > 8 {
+            return 0;
+        }
+        let mut n = 0;
+        for s in sel {
+            match s {
+                Selection::Field(f) => {
+                    if f.key() == key {
+                        n += 1;
+                    }
+                    n += occ(doc, &f.sel, key, depth + 1);
+                }
+                Selection::Inline(i) => n += occ(doc, &i.sel, key, depth + 1),
+                Selection::Spread(sp) => {
+                    if let Some(fr) = doc.frag(&sp.name.s) {
+                        n += occ(doc, &fr.sel, key, depth + 1);
+                    }
+                }
+            }
+        }
+        n
+    }
+    doc.ops().map(|o| occ(doc, &o.sel, key, 0)).sum()
+}
